@@ -87,7 +87,7 @@ class Init(Contract):
         return {'gen': VBuiltin('gen'), 'asyncio': VBuiltin('asyncio'), 'no_default': VStr('--no-default--'),
                 'identity': VBuiltin('identity'), 'Queue': VBuiltin('Queue'), 'defaultdict': VBuiltin('defaultdict'),
                 'Condition': VBuiltin('Condition'), 'core': VBuiltin('core'), 'get_stream_type': VBuiltin('get_stream_type'),
-                'Streaming': VBuiltin('Streaming')}
+                'Streaming': VBuiltin('Streaming'), 'IOLoop': VBuiltin('IOLoop'), 'time': VBuiltin('time')}
 
     def summaries(self):
         def base_init(I, recv, args, kwargs):
